@@ -14,7 +14,7 @@ FACTS_FOR = {
     "C09": ["locks_RegisterReplica", "locks_Start", "canSignal", "electionLoop", "electionInit", "electionSkipsRebuildingRegistrant", "startLoops", "startOneOrder", "syncAddOrder", "syncVerifyOrder", "mwWriteOk"],
     "C10": ["replicaWriteCounter", "increaseRevisionCounter", "getRevisionCounter", "guard_Replica_SetRevisionCounter", "verifyOrder"],
     "C11": ["cleanerActionLoop", "cleanerPreconditions", "cleanerConds", "cleanerSlices", "removeIndexShifts", "removeIndexBody", "removeIndexSnapIndx",
-            "guard_Replica_PrepareRemoveDisk", "guard_Replica_RemoveDiffDisk"],
+            "guard_Replica_PrepareRemoveDisk", "guard_Replica_RemoveDiffDisk", "clientFileOpExit"],
     "C12": ["order_RemoveDiffDisk", "order_ReplaceDisk", "createDiskDupGuard", "chainTooLong", "liveChainTooLong", "guard_Replica_RemoveDiffDisk", "guard_Replica_PrepareRemoveDisk", "removeDiskNodeTail"],
     "C13": ["locks_Snapshot", "locks_RemoveReplica", "locks_Revert", "snapshotRefusal", "checkpointCond", "checkpointBody", "removeReplicaTail"],
     "C14": ["actionsGated", "checkAction", "replicaActions", "routedActions", "verifyChainGuard", "verifySlices"],
@@ -149,7 +149,7 @@ PROPS = {
                 "modelled: the counter file is one 4 KiB O_DIRECT block rewritten by a single pwrite under revisionLock; concurrent writers are one atomic step each"]},
     "C11": {"lean": ["JivaVerif.Properties.C11"],
             "runs": [rep("delete", 640, 36, 10000, 50, 4),
-                     dict(rep("cleaner", 16, 18, 48, 22, 44), **{"search_for": ["cleanerActionLoop", "cleanerPreconditions", "cleanerConds", "cleanerSlices"],
+                     dict(rep("cleaner", 16, 18, 48, 22, 44), **{"search_for": ["cleanerActionLoop", "cleanerPreconditions", "cleanerConds", "cleanerSlices", "clientFileOpExit"],
                                                               "quick": {"n": 16, "len": 18, "timeout": 600}, "thorough": {"n": 48, "len": 22, "timeout": 1200}})],
             "modelled": FS + ["profile cleaner (thorough tier; in the quick tier only as the search for a failing input when one of the cleaner's T1 facts no longer checks — one run takes a minute because sync.SnapshotDeletionInterval is a constant): the REAL sync.Task.InternalSnapshotCleaner runs one tick against the replica — a controller endpoint reporting the checkpoint, the real sync agent with the real sfold child for the coalesce step, which is made to fail in half of the runs; which snapshot it picked, the chain, flags, data and snapshot images afterwards are compared with the model (pick legal, mark / fold / unlink, or only the mark when the fold failed)"]},
     "C12": {"lean": ["JivaVerif.Properties.C12"],
@@ -175,7 +175,10 @@ PROPS = {
                          "not covered: memory exhaustion by bodies larger than 1 MiB, net/http internals, handlers reached only with real sync agents (preparerebuild file transfer)"]},
     "C15": {"lean": ["JivaVerif.Properties.C15"],
             "runs": [{"engine": "rpcdiff", "profile": "mix", "salt": 21,
-                      "quick": {"n": 48, "len": 150}, "thorough": {"n": 640, "len": 3000, "timeout": 3000}}],
+                      "quick": {"n": 48, "len": 150}, "thorough": {"n": 640, "len": 3000, "timeout": 3000}},
+                     # '… and the failure is reported so that the replica is detached': the controller's side of a failed
+                     # connection — the monitor event, with and without an error, on replicas in every mode
+                     ctl("faults", 320, 30, 6000, 40, 22)],
             "modelled": ["modelled: the client loop is one goroutine; its events (request taken from the queue, frame read, transport error) are the model's steps; sequence numbers do not wrap (fewer than 2^32 requests per connection)",
                          "partial: that select/time.After fire, channel-capacity blocking (responses, closeChan), the unsynchronised read of Client.err in operation(), and requests queued at the moment the loop exits (they fail at their own deadline) are runtime behaviour outside the event model; the harness observes prompt failure with shortened deadlines (rpc/verif_hooks.go)",
                          "harness: real rpc.Wire on an in-memory conn; real rpc.Client over loopback TCP against a scripted peer"]},
